@@ -36,6 +36,8 @@ theorem step_seen (s : State) (op : Op) (h : op.isDrop = false) : (step s op).se
   | hold => rfl
   | psrelease => rfl
   | fail => rfl
+  | startHold => rfl
+  | started => rfl
 
 theorem step_drop_seen (s : State) (i : Nat) : (step s (.dropHandle i)).seen = s.seen := rfl
 
@@ -99,6 +101,8 @@ theorem Same.step {s s' : State} (h : Same s s') (op : Op) : Same (step s op) (s
   | psrelease => exact ⟨h1, by simp only [Timers.step, h1, h2], h3⟩
   | dropHandle i => exact ⟨h1, h2, h3⟩
   | fail => exact ⟨h1, by simp only [Timers.step, h2], h3⟩
+  | startHold => exact ⟨h1, by simp only [Timers.step, h2], h3⟩
+  | started => exact ⟨h1, by simp only [Timers.step, h2], h3⟩
 
 theorem Same.steps {s s' : State} (h : Same s s') (ops : List Op) : Same (steps s ops) (steps s' ops) := by
   induction ops generalizing s s' with
@@ -164,6 +168,8 @@ theorem mrun_undrop (ms : List MOp) : ∀ {s s' : State}, Same s s' → Same (mr
     | psrelease => exact hgen _ rfl
     | fail => exact hgen _ rfl
     | advFail d => exact hgen _ rfl
+    | startHold => exact hgen _ rfl
+    | started => exact hgen _ rfl
 
 /-! ### periods beyond the horizon, zero periods -/
 
